@@ -54,7 +54,7 @@ fn excuse_for_commit(w: &World, m: usize, c: usize) -> Option<Excuse> {
     }
     if !rec.first_at_base && !rec.first_routed {
         return Some(Excuse {
-            key: "O23-losing-commit-rotated-the-nostr-group-id",
+            key: "O23-event-tagged-with-superseded-nostr-group-id-is-dropped",
             detail: format!(
                 "when commit #{c} was first handed to c{m} the client had applied a competing commit that rotated the Nostr group id, so the event (tagged with the id of its own epoch) was not routed to the group"
             ),
@@ -425,4 +425,449 @@ pub fn classify(w: &World, chain: &[ChainState], rep: &mut CaseReport) {
         *rep.counters.entry(k.clone()).or_insert(0) += v;
     }
     let _ = Outcome::Commit;
+}
+
+// ---------------------------------------------------------------------------------------------
+// observers (checked after every step)
+// ---------------------------------------------------------------------------------------------
+
+use crate::fingerprint::Full;
+use crate::world::Observer;
+
+/// C08: after every API call the stored record of an active group mirrors the MLS state.
+#[derive(Default)]
+pub struct MirrorObserver {
+    pub checks: u64,
+    pub nontrivial: u64,
+    pub paths: BTreeMap<String, u64>,
+    last_key: BTreeMap<usize, Option<StateKey>>,
+    last_ext: BTreeMap<usize, Option<crate::fingerprint::ExtProj>>,
+}
+
+pub fn mirror_mismatch(l: &crate::fingerprint::GroupLevel) -> Option<String> {
+    let mut d = vec![];
+    if l.record.epoch != l.epoch {
+        d.push(format!("record epoch {} vs MLS epoch {}", l.record.epoch, l.epoch));
+    }
+    if l.record.name != l.ext.name {
+        d.push(format!("name {:?} vs {:?}", l.record.name, l.ext.name));
+    }
+    if l.record.description != l.ext.description {
+        d.push(format!("description {:?} vs {:?}", l.record.description, l.ext.description));
+    }
+    if l.record.admins != l.ext.admins {
+        d.push(format!("admins {:?} vs {:?}", l.record.admins, l.ext.admins));
+    }
+    if l.record.nostr_group_id != l.ext.nostr_group_id {
+        d.push(format!(
+            "nostr group id {} vs {}",
+            l.record.nostr_group_id, l.ext.nostr_group_id
+        ));
+    }
+    if l.record.image_hash != l.ext.image_hash {
+        d.push("image hash".into());
+    }
+    if l.record.image_key != l.ext.image_key {
+        d.push("image key".into());
+    }
+    if l.record.image_nonce != l.ext.image_nonce {
+        d.push("image nonce".into());
+    }
+    if l.relays != l.ext.relays {
+        d.push(format!("relays {:?} vs {:?}", l.relays, l.ext.relays));
+    }
+    if d.is_empty() { None } else { Some(d.join("; ")) }
+}
+
+impl MirrorObserver {
+    pub fn check_client(&mut self, w: &World, who: usize, what: &str) -> Result<(), Failure> {
+        if w.clients[who].mdk.is_none() {
+            return Ok(());
+        }
+        if w.group_state(who) != Some(mdk_storage_traits::groups::types::GroupState::Active) {
+            return Ok(());
+        }
+        let lvl = match w.level(who) {
+            Ok(Some(l)) => l,
+            Ok(None) => return Ok(()),
+            Err(e) => {
+                return Err(Failure::new(
+                    "active-group-unreadable",
+                    format!("after {what} at c{who}: {e}"),
+                ));
+            }
+        };
+        self.checks += 1;
+        let key = Some(StateKey {
+            epoch: lvl.epoch,
+            auth: lvl.auth.clone(),
+        });
+        let changed = self.last_key.get(&who) != Some(&key)
+            || self.last_ext.get(&who) != Some(&Some(lvl.ext.clone()));
+        if changed {
+            self.nontrivial += 1;
+            *self.paths.entry(format!("state-changed-by:{what}")).or_insert(0) += 1;
+        }
+        self.last_key.insert(who, key);
+        self.last_ext.insert(who, Some(lvl.ext.clone()));
+        if let Some(d) = mirror_mismatch(&lvl) {
+            return Err(Failure::new(
+                "record-does-not-mirror-mls-state",
+                format!(
+                    "after {what} at c{who} ({:?}, step {}): {d}",
+                    w.clients[who].kind, w.step
+                ),
+            ));
+        }
+        Ok(())
+    }
+}
+
+impl Observer for MirrorObserver {
+    fn after_call(&mut self, w: &World, who: usize, what: &str) -> Result<(), Failure> {
+        self.check_client(w, who, what)
+    }
+}
+
+/// C07: handing a client again an event that already took effect there changes nothing.
+#[derive(Default)]
+pub struct RedeliveryObserver {
+    pub checked: u64,
+    pub nontrivial: u64,
+    pub kinds: BTreeMap<String, u64>,
+}
+
+impl Observer for RedeliveryObserver {
+    fn wants_before(&self) -> bool {
+        true
+    }
+    fn after_delivery(
+        &mut self,
+        w: &World,
+        who: usize,
+        idx: usize,
+        before: Option<&Full>,
+        outcome: &Outcome,
+        redelivery: bool,
+    ) -> Result<(), Failure> {
+        if !redelivery {
+            return Ok(());
+        }
+        let Some(before) = before else { return Ok(()) };
+        let cl = &w.clients[who];
+        let rec = cl.delivered.get(&idx).expect("delivery recorded");
+        // did an earlier hand-over take effect?
+        let took_effect = matches!(
+            rec.first_outcome,
+            Outcome::App(_) | Outcome::Commit | Outcome::PendingProposal | Outcome::AutoCommit
+        );
+        if !took_effect {
+            return Ok(());
+        }
+        // the first echo of an own commit / message is the confirmation, handled as first delivery
+        let after = w.full(who);
+        self.checked += 1;
+        let ev = &w.relay[idx];
+        let own = ev.author == who;
+        let moved = rec.first_state != before.state_key();
+        let kind = format!(
+            "{}{:?}{}",
+            if own { "own-" } else { "" },
+            ev.class,
+            if moved { "-after-state-change" } else { "-same-state" }
+        );
+        *self.kinds.entry(kind).or_insert(0) += 1;
+        if moved {
+            self.nontrivial += 1;
+        }
+        if *before != after {
+            return Err(Failure::new(
+                "redelivery-changed-state",
+                format!(
+                    "event #{idx} ({:?}, {}) had taken effect at c{who} (first outcome {}), handing it over again (outcome {}) changed the client: {}",
+                    ev.class,
+                    ev.what,
+                    rec.first_outcome.tag(),
+                    outcome.tag(),
+                    diff_full(before, &after)
+                ),
+            ));
+        }
+        Ok(())
+    }
+}
+
+pub fn diff_full(a: &Full, b: &Full) -> String {
+    let mut d = vec![];
+    if a.level != b.level {
+        match (&a.level, &b.level) {
+            (Some(x), Some(y)) => d.push(diff_levels(x, y)),
+            _ => d.push(format!(
+                "group presence {} -> {}",
+                a.level.is_some(),
+                b.level.is_some()
+            )),
+        }
+    }
+    if a.pending_commit != b.pending_commit {
+        d.push(format!("pending commit {} -> {}", a.pending_commit, b.pending_commit));
+    }
+    if a.pending_proposal_count != b.pending_proposal_count
+        || a.pending_adds != b.pending_adds
+        || a.pending_removes != b.pending_removes
+    {
+        d.push(format!(
+            "pending proposals {} -> {}",
+            a.pending_proposal_count, b.pending_proposal_count
+        ));
+    }
+    if a.own_leaf != b.own_leaf {
+        d.push(format!("own leaf {:?} -> {:?}", a.own_leaf, b.own_leaf));
+    }
+    if a.self_update != b.self_update {
+        d.push(format!("self-update state {} -> {}", a.self_update, b.self_update));
+    }
+    if a.last != b.last {
+        d.push(format!("last-message pointer {:?} -> {:?}", a.last, b.last));
+    }
+    if a.msgs_created != b.msgs_created {
+        let ids_a: Vec<_> = a.msgs_created.iter().map(|m| (&m.id[..8], &m.state)).collect();
+        let ids_b: Vec<_> = b.msgs_created.iter().map(|m| (&m.id[..8], &m.state)).collect();
+        d.push(format!("messages {ids_a:?} -> {ids_b:?}"));
+    } else if a.msgs_processed != b.msgs_processed {
+        d.push("processed-at ordering of messages changed".into());
+    }
+    if a.present != b.present {
+        d.push(format!("record present {} -> {}", a.present, b.present));
+    }
+    if a.mls_error != b.mls_error {
+        d.push(format!("mls load {:?} -> {:?}", a.mls_error, b.mls_error));
+    }
+    d.join("; ")
+}
+
+pub struct Multi<'a>(pub Vec<&'a mut dyn Observer>);
+
+impl Observer for Multi<'_> {
+    fn after_call(&mut self, w: &World, who: usize, what: &str) -> Result<(), Failure> {
+        for o in self.0.iter_mut() {
+            o.after_call(w, who, what)?;
+        }
+        Ok(())
+    }
+    fn wants_before(&self) -> bool {
+        self.0.iter().any(|o| o.wants_before())
+    }
+    fn after_delivery(
+        &mut self,
+        w: &World,
+        who: usize,
+        idx: usize,
+        before: Option<&Full>,
+        outcome: &Outcome,
+        redelivery: bool,
+    ) -> Result<(), Failure> {
+        for o in self.0.iter_mut() {
+            o.after_delivery(w, who, idx, before, outcome, redelivery)?;
+        }
+        Ok(())
+    }
+}
+
+// ---------------------------------------------------------------------------------------------
+// C02: application messages
+// ---------------------------------------------------------------------------------------------
+
+#[derive(Default)]
+pub struct MsgReport {
+    pub checked_pairs: u64,
+    pub nontrivial: u64,
+    pub excused: Vec<String>,
+    pub dont_care: u64,
+    pub losing_checked: u64,
+    pub classes: BTreeSet<String>,
+}
+
+/// Which clients agree with the reference's final state?
+pub fn converged_clients(w: &World, chain: &[ChainState]) -> Vec<usize> {
+    let last = chain.last().unwrap();
+    w.actors()
+        .into_iter()
+        .filter(|&m| w.clients[m].mdk.is_some())
+        .filter(|&m| matches!(w.level(m), Ok(Some(l)) if l == last.level))
+        .collect()
+}
+
+pub fn check_messages(w: &World, chain: &[ChainState], mode: Mode) -> Result<MsgReport, Failure> {
+    let mut rep = MsgReport::default();
+    let converged = converged_clients(w, chain);
+    let fulls: BTreeMap<usize, Full> = converged.iter().map(|&m| (m, w.full(m))).collect();
+
+    // exactly-once in both listings
+    for (&m, f) in &fulls {
+        for (name, list) in [("created-at order", &f.msgs_created), ("processed-at order", &f.msgs_processed)] {
+            let mut seen = BTreeSet::new();
+            for x in list {
+                if !seen.insert(x.id.clone()) {
+                    return Err(Failure::new(
+                        "message-listed-twice",
+                        format!("c{m}: message {} appears twice in the {name} listing", &x.id[..8]),
+                    ));
+                }
+            }
+        }
+        let a: BTreeSet<_> = f.msgs_created.iter().map(|x| x.id.clone()).collect();
+        let b: BTreeSet<_> = f.msgs_processed.iter().map(|x| x.id.clone()).collect();
+        if a != b {
+            return Err(Failure::new(
+                "listings-disagree",
+                format!("c{m}: the two sort orders list different message sets"),
+            ));
+        }
+    }
+
+    for (idx, e) in w.relay.iter().enumerate() {
+        if e.class != Class::App || e.withdrawn {
+            continue;
+        }
+        let Some(rumor) = &e.rumor else { continue };
+        let Some(base) = &e.base else { continue };
+        let id = rumor.id.map(|i| i.to_hex()).unwrap_or_default();
+        let on_chain = chain_index(chain, base);
+        match on_chain {
+            Some(i) => {
+                let roster = chain[i].roster();
+                for &m in &converged {
+                    let cl = &w.clients[m];
+                    if !roster.contains(&cl.pk_hex()) || !cl.reached.contains(base) {
+                        continue;
+                    }
+                    let f = &fulls[&m];
+                    let rec = cl.delivered.get(&idx);
+                    // windows: don't-care when the receiver was too many epochs ahead
+                    if let Some(r) = rec {
+                        if let Some(fs) = &r.first_state {
+                            let dist = fs.epoch.saturating_sub(base.epoch) as usize;
+                            if dist > cl.cfg.max_past_epochs {
+                                rep.dont_care += 1;
+                                continue;
+                            }
+                            if dist > 0 {
+                                rep.classes.insert(format!("delivered-{}-epochs-late", dist.min(6)));
+                                rep.nontrivial += 1;
+                            }
+                        }
+                        if r.count > 1 {
+                            rep.classes.insert("duplicated".into());
+                        }
+                    }
+                    rep.checked_pairs += 1;
+                    let found: Vec<_> = f.msgs_created.iter().filter(|x| x.id == id).collect();
+                    let mut excuse: Option<(&'static str, String)> = None;
+                    if let Some(r) = rec {
+                        if !r.first_reached_base {
+                            excuse = Some((
+                                "O2-premature-delivery-is-final",
+                                format!("message #{idx} was first handed to c{m} before it reached the sender's epoch"),
+                            ));
+                        } else if e.author != m {
+                            // O4: filed under the receiver's epoch when processed on a branch
+                            // that was later rolled back
+                            if let Some(fs) = &r.first_state {
+                                if chain_index(chain, fs).is_none() && fs.epoch > base.epoch {
+                                    excuse = Some((
+                                        "O4-message-filed-under-receivers-epoch",
+                                        format!(
+                                            "message #{idx} (sent in {}) was processed by c{m} while it was on the losing branch state {}; it was filed under epoch {} and invalidated by the rollback",
+                                            base.short(),
+                                            fs.short(),
+                                            fs.epoch
+                                        ),
+                                    ));
+                                }
+                            }
+                        }
+                        if excuse.is_none() && !r.first_routed {
+                            excuse = Some((
+                                "O23-event-tagged-with-superseded-nostr-group-id-is-dropped",
+                                format!("message #{idx} was first handed to c{m} after it had applied a commit that rotated the Nostr group id; the event carries the id of its own epoch, is answered 'group not found' and recorded as failed"),
+                            ));
+                        }
+                    }
+                    let problem = if found.is_empty() {
+                        Some("is missing".to_string())
+                    } else {
+                        let x = found[0];
+                        let want_tags = serde_json::to_string(&rumor.tags).unwrap_or_default();
+                        if x.pubkey != rumor.pubkey.to_hex()
+                            || x.kind != rumor.kind.as_u16()
+                            || x.created_at != rumor.created_at.as_secs()
+                            || x.content != rumor.content
+                            || x.tags != want_tags
+                        {
+                            // altered content is never excusable
+                            excuse = None;
+                            Some(format!(
+                                "differs from what the sender created: stored ({}, kind {}, at {}, {:?}, tags {}) vs sent ({}, kind {}, at {}, {:?}, tags {})",
+                                &x.pubkey[..8], x.kind, x.created_at, x.content, x.tags,
+                                &rumor.pubkey.to_hex()[..8], rumor.kind.as_u16(), rumor.created_at.as_secs(), rumor.content, want_tags
+                            ))
+                        } else if x.state != "processed" {
+                            Some(format!("is in state {:?} instead of processed", x.state))
+                        } else {
+                            None
+                        }
+                    };
+                    if let Some(p) = problem {
+                        match (excuse, mode) {
+                            (Some((k, _)), Mode::Normal) => rep.excused.push(k.to_string()),
+                            (Some((k, d)), Mode::Strict) => {
+                                return Err(Failure::new(&format!("message:{k}"), format!("c{m}: message #{idx} {p}; {d}")));
+                            }
+                            (None, _) => {
+                                return Err(Failure::new(
+                                    "winning-branch-message-not-valid-exactly-once",
+                                    format!(
+                                        "message #{idx} ({}) sent by c{} in selected state {} {p} at c{m} ({:?}); handed over {} time(s), first outcome {:?} in state {:?}, last outcome {:?}",
+                                        e.what,
+                                        e.author,
+                                        base.short(),
+                                        cl.kind,
+                                        rec.map(|r| r.count).unwrap_or(0),
+                                        rec.map(|r| r.first_outcome.clone()),
+                                        rec.and_then(|r| r.first_state.as_ref().map(|s| s.short())),
+                                        rec.map(|r| r.last_outcome.clone()),
+                                    ),
+                                ));
+                            }
+                        }
+                    }
+                }
+            }
+            None => {
+                // created on a losing branch: never left valid on a converged client
+                for &m in &converged {
+                    let f = &fulls[&m];
+                    rep.losing_checked += 1;
+                    if let Some(x) = f.msgs_created.iter().find(|x| x.id == id) {
+                        rep.nontrivial += 1;
+                        rep.classes.insert("losing-branch-message-held".into());
+                        if x.state != "epoch_invalidated" {
+                            return Err(Failure::new(
+                                "losing-branch-message-left-valid",
+                                format!(
+                                    "message #{idx} ({}) was created by c{} in {} which is not on the selected chain, yet c{m} (converged) holds it in state {:?}",
+                                    e.what,
+                                    e.author,
+                                    base.short(),
+                                    x.state
+                                ),
+                            ));
+                        }
+                    }
+                }
+            }
+        }
+    }
+    Ok(rep)
 }
